@@ -5,7 +5,7 @@
     harness fills by calling the REAL marshaler directly (Name on every value and on every
     handler's zero value, Marshal on every value sent, Unmarshal of every payload into every
     handler type of the scenario) — independently of the bus / processor run that is compared. *)
-From WM Require Import Base.Prelude Message.Model Handler.RouterHandle CQRS.Model.
+From WM Require Import Base.Prelude Message.Model Handler.RouterHandle CQRS.Model CQRS.Reg.
 
 Definition val := (N * N)%type.        (* Go type, canonical content *)
 Definition val_eqb (a b : val) : bool := N.eqb (fst a) (fst b) && N.eqb (snd a) (snd b).
@@ -159,3 +159,24 @@ Definition reg_mismatch (c : reg_case) : bool :=
                     else (None, register_handlers (t_name t) (t_zero t) (r_hs c)) in
   negb (option_eqb N.eqb dup (r_dup c) && list_eqb revent_eqb tr (r_tr c)).
 Definition reg_mismatches (cs : list reg_case) : list nat := positions (map reg_mismatch cs).
+
+(** ** registration scripts (round "proofs"): a sequence of AddHandlers / AddHandler /
+    AddHandlersToRouter / AddHandlersGroup calls on one processor and one Router *)
+Record regs_case := RegS {
+  g_tab : codec_tab;
+  g_evt : bool; g_depr : bool;
+  g_calls : list (rcall N);
+  g_obs : list (list gevent * rres);        (* observed callback / router calls and result per call *)
+  g_router : list rhandler;                 (* observed Router handlers in order of appearance *)
+  g_hids : list N                           (* observed processor.Handlers() *)
+}.
+Definition regs_mismatch (c : regs_case) : bool :=
+  let t := g_tab c in
+  let '(s, obs) := reg_run (t_name t) (t_zero t) (g_evt c) (g_depr c) rinit (g_calls c) in
+  negb (list_eqb obs_eqb obs (g_obs c) && list_eqb rh_eqb (r_router s) (g_router c)
+        && list_eqb N.eqb (map (fun x => rs_id x) (r_handlers s)) (g_hids c)).
+Definition regs_violates (c : regs_case) : bool :=
+  let t := g_tab c in
+  negb (reg_monitor (t_name t) (t_zero t) (g_evt c) (g_depr c) (g_calls c) (g_obs c) (g_router c) (g_hids c)).
+Definition regs_mismatches (cs : list regs_case) : list nat := positions (map regs_mismatch cs).
+Definition regs_violations (cs : list regs_case) : list nat := positions (map regs_violates cs).
